@@ -43,6 +43,12 @@ func report(cfg *runCfg, g *Gen, results []*fnResult, obls []*Obligation, engine
 			// a callee precondition is the same obligation at whichever call site it arises:
 			// compare "requires" obligations modulo the call-site ordinal
 			inBase[normRequires(n)] = true
+			// the frame clause (modifies) of a function and a field-protocol declaration are each one
+			// clause, whichever store or load instantiates them: compared modulo the instruction
+			inBase[normClause(n)] = true
+			if i := strings.Index(n, ":"); i > 0 {
+				inBase[n[:i]+":assigns"] = true
+			}
 		}
 	}
 	isKnown := func(name string) *knownFinding {
@@ -107,9 +113,19 @@ func report(cfg *runCfg, g *Gen, results []*fnResult, obls []*Obligation, engine
 			lines = append(lines, fmt.Sprintf("KNOWN-FINDING: property=%s %s (%s)", cfg.prop, kf.What, o.Name))
 			return
 		}
-		if !decided && hasBase && !inBase[o.Name] && !(o.Kind == "requires" && inBase[normRequires(o.Name)]) {
-			// a new obligation that no solver decided: undecided, not a violation
-			fmt.Fprintf(os.Stderr, "UNDECIDED: %s status=%s (not in baseline; no violation claimed)\n", o.Name, o.Status)
+		if !decided && hasBase && !inBase[o.Name] && !(o.Kind == "requires" && inBase[normRequires(o.Name)]) && !inBase[normClause(o.Name)] {
+			// a new obligation that no solver decided: undecided, and a violation only when a
+			// counterexample search yields an input that fails on the real code
+			os.MkdirAll(replayDir, 0o755)
+			path, confirmed := writeReplay(cfg, g, o, replayDir)
+			if confirmed {
+				violations++
+				lines = append(lines, fmt.Sprintf("VIOLATION property=%s replay=%s", cfg.prop, path))
+				exit = 1
+				return
+			}
+			os.Remove(path)
+			fmt.Fprintf(os.Stderr, "UNDECIDED: %s status=%s (not in baseline, no failing input reproduced; no violation claimed)\n", o.Name, o.Status)
 			return
 		}
 		violations++
@@ -302,6 +318,18 @@ func writeBaseline(cfg *runCfg, obls []*Obligation, engineErrors int) int {
 var reCallOrd = regexp.MustCompile(`#\d+:`)
 
 // normRequires drops the call-site ordinal of a requires obligation name.
+// normClause maps an instance of a per-function or per-declaration clause to the clause:
+// F:assigns:<loc>#k -> F:assigns ; F:proto:store(f)#k:label -> proto:store(f):label.
+func normClause(n string) string {
+	if i := strings.Index(n, ":assigns:"); i > 0 {
+		return n[:i] + ":assigns"
+	}
+	if i := strings.Index(n, ":proto:"); i > 0 {
+		return reCallOrd.ReplaceAllString(n[i+1:], ":")
+	}
+	return n
+}
+
 func normRequires(n string) string {
 	if !strings.Contains(n, ":requires:") {
 		return n
